@@ -100,9 +100,23 @@ func allSpecs() []*HarnessSpec {
 			Quick: []Grid{{"opt": {16}, "lq": {2}}}},
 		// ---- C08 kernel ----
 		{Name: "k_encstep", Pkg: "trie", Property: "C08", Exhaustive: true, Witness: 1,
-			Quick:    []Grid{{"limit": {0, 1}}},
-			Thorough: []Grid{{"limit": {0, 1}}},
-			Note:     "decStep(encStep(s)) == s for every non-negative multiple of 4"},
+			Quick: []Grid{{"x": {0}}},
+			Note:  "decStep(encStep(s)) == s for every step the builder accepts (s>>2 <= maxStep), s symbolic over int32"},
+		{Name: "l2_order", Pkg: "trie", Property: "C08", Witness: 1,
+			Quick: []Grid{{"n": {2}, "L": {2}, "lens": rng(0, 8), "opt": {16, 9}},
+				{"n": {3}, "L": {1}, "lens": rng(0, 7), "opt": {16}}},
+			Thorough: []Grid{{"n": {2}, "L": {3}, "lens": rng(0, 15), "opt": optsDistinct},
+				{"n": {3}, "L": {2}, "lens": rng(0, 26), "opt": {16, 9, 0}},
+				{"n": {4}, "L": {1}, "lens": rng(0, 15), "opt": {16}}},
+			Note: "symbolic keys WITHOUT the ascending assumption: rejected with ErrKeyOutOfOrder and a nil trie iff some neighbours are not strictly ascending; accepted lists answer RangeGet for every key"},
+		{Name: "l3_order_deep", Pkg: "trie", Property: "C08", Witness: 1,
+			Quick:    []Grid{{"pos": {0, 31, 62}}},
+			Thorough: []Grid{{"pos": rng(0, 62)}},
+			Note:     "a symbolic pair of neighbours at position i of a 64-key list (equal / swapped / prefix / bytes >= 0x80 are all models of the pair)"},
+		{Name: "l3_longrun", Pkg: "trie", Property: "C08", Witness: 1,
+			Quick:    []Grid{{"run": {127, 128, 2047, 16384, 32767, 32768, 32769}, "opt": {16, 2}}},
+			Thorough: []Grid{{"run": {0, 1, 126, 127, 128, 129, 2047, 2048, 16383, 16384, 32766, 32767, 32768, 32769, 40000}, "opt": {16, 0, 2, 4, 9}}},
+			Note:     "shared runs up to and beyond 65535 half-bytes with symbolic tails: the builder refuses with ErrStepTooLong (only beyond the documented 16 KiB) or every key is found"},
 	}...)
 }
 
@@ -130,11 +144,11 @@ func pow(b, e int) int {
 func l2Grids(tier string, check int, opts, optsSmall, encs []int, lqs []int) []Grid {
 	var gs []Grid
 	add := func(n, L int, o, e []int) {
-		gs = append(gs, Grid{"n": {n}, "L": {L}, "lens": rng(0, pow(L+1, n)-1), "opt": o, "enc": e, "check": {check}, "lq": lqs})
+		gs = append(gs, Grid{"n": {n}, "L": {L}, "lens": rng(0, pow(L+1, n)-1), "opt": o, "enc": e, "check": {check}, "lq": lqs, "cv": {-1}})
 	}
 	queryCheck := len(lqs) > 1
 	addq := func(n, L int, o, e, lq []int) {
-		gs = append(gs, Grid{"n": {n}, "L": {L}, "lens": rng(0, pow(L+1, n)-1), "opt": o, "enc": e, "check": {check}, "lq": lq})
+		gs = append(gs, Grid{"n": {n}, "L": {L}, "lens": rng(0, pow(L+1, n)-1), "opt": o, "enc": e, "check": {check}, "lq": lq, "cv": {-1}})
 	}
 	switch {
 	case tier == "quick" && queryCheck:
@@ -188,7 +202,7 @@ func apiSpecs() []*HarnessSpec {
 			Quick:    l2Grids("quick", p.check, p.opts, p.small, p.encs, p.lqQ),
 			Thorough: l2Grids("thorough", p.check, p.opts, p.small, p.encs, p.lqT),
 			Note:     "L2 (fully symbolic key sets): " + p.note})
-		skQ, skT := []int{0, 1, 2, 3, 4}, []int{0, 1, 2, 3, 4}
+		skQ, skT := []int{0, 1, 2, 3, 4, 5}, []int{0, 1, 2, 3, 4, 5, 6}
 		enc3 := p.encs[:1]
 		lq3Q, lq3T := p.lqQ, p.lqT
 		if len(lq3Q) > 1 {
@@ -200,5 +214,61 @@ func apiSpecs() []*HarnessSpec {
 			Thorough: []Grid{l3Grid(p.check, skT, p.opts, p.encs, []int{0, 1, 2, 3}, lq3T)},
 			Note:     "L3 (concrete skeleton key sets, symbolic query): " + p.note})
 	}
+	// ---- C04 scans ----
+	scanGrid := func(n, L int, opts, encs, apis, lss, les, stops []int) Grid {
+		return Grid{"n": {n}, "L": {L}, "lens": rng(0, pow(L+1, n)-1), "opt": opts, "enc": encs, "check": {4}, "lq": lss, "cv": {-1},
+			"api": apis, "le": les, "stop": stops}
+	}
+	alpha := func(g Grid) Grid { g["alpha"] = []int{1}; return g }
+	out = append(out, &HarnessSpec{Name: "l2_api", Pkg: "trie", Property: "C04", Witness: 1,
+		Quick: []Grid{
+			scanGrid(0, 2, optsComplFew, []int{1, 2, 0}, []int{0, 1, 2}, []int{0, 1}, []int{1}, []int{0}),
+			scanGrid(1, 2, optsComplFew, []int{1, 2, 0}, []int{0, 1, 2}, []int{0, 1, 2}, []int{1}, []int{0}),
+			alpha(scanGrid(2, 1, optsComplFew[:1], []int{1, 2}, []int{0}, []int{1}, []int{1}, []int{0})),
+		},
+		Thorough: []Grid{
+			scanGrid(0, 2, optsComplete, []int{1, 2, 0}, []int{0, 1, 2}, []int{0, 1, 2}, []int{0, 1, 2}, []int{0, 1}),
+			scanGrid(1, 3, optsComplete, []int{1, 2, 0}, []int{0, 1, 2}, []int{0, 1, 2, 3}, []int{0, 1, 2}, []int{0, 1}),
+			alpha(scanGrid(2, 2, optsComplFew, []int{1, 2, 0}, []int{0, 1, 2}, []int{0, 1, 2}, []int{1, 2}, []int{0, 1})),
+		},
+		Note: "L2: NewIter/ScanFrom/ScanFromTo on Complete tries with symbolic start/end, inclusivities and withValue symbolic; the t-th yield must be the t-th retained key in range with its encoded value; exhaustion persists. n=2 key bytes range over a 6-letter nibble-diverse alphabet (the scan code forks per label bit)"})
+	out = append(out, &HarnessSpec{Name: "l3_api", Pkg: "trie", Property: "C04", Witness: 1,
+		Quick: []Grid{{"skel": {0, 1, 2, 3}, "opt": {9}, "enc": {1}, "runs": {0, 2}, "check": {4}, "lq": {1, 2}, "api": {0}, "le": {1}, "stop": {0}},
+			{"skel": {0}, "opt": {9}, "enc": {2}, "runs": {0}, "check": {4}, "lq": {1}, "api": {0, 2}, "le": {2}, "stop": {0}}},
+		Thorough: []Grid{{"skel": {0, 1, 2, 3, 4}, "opt": optsComplete, "enc": {1, 2, 0}, "runs": {0, 2}, "check": {4}, "lq": {0, 1, 2, 3}, "api": {0, 1, 2}, "le": {1, 2}, "stop": {0, 2}}},
+		Note:     "L3: scans over skeleton tries (257-bit root, deep caterpillar whose stack outgrows the initial scan stack, prefix keys)"})
+	nonComplete := []int{0, 1, 2, 3, 4, 5, 16}
+	out = append(out, &HarnessSpec{Name: "l2_api", Pkg: "trie", Property: "C04", Witness: 1,
+		Quick: []Grid{{"n": {0}, "L": {2}, "lens": {0}, "opt": nonComplete, "enc": {1}, "check": {41}, "lq": {1}, "cv": {-1}},
+			{"n": {1}, "L": {2}, "lens": {0, 1, 2}, "opt": nonComplete, "enc": {1}, "check": {41}, "lq": {1}, "cv": {-1}},
+			{"n": {2}, "L": {1}, "lens": rng(0, 3), "opt": nonComplete, "enc": {1}, "check": {41}, "lq": {1}, "cv": {-1}, "alpha": {1}}},
+		Thorough: []Grid{{"n": {0}, "L": {2}, "lens": {0}, "opt": nonComplete, "enc": {1, 0}, "check": {41}, "lq": {0, 1, 2}, "cv": {-1}},
+			{"n": {1}, "L": {2}, "lens": {0, 1, 2}, "opt": nonComplete, "enc": {1, 0}, "check": {41}, "lq": {0, 1, 2}, "cv": {-1}},
+			{"n": {2}, "L": {2}, "lens": rng(0, 8), "opt": nonComplete, "enc": {1, 0}, "check": {41}, "lq": {0, 1, 2}, "cv": {-1}, "alpha": {1}}},
+		Note: "refusal clause: on tries that do not store complete keys NewIter must panic or still yield exactly the right sequence"})
+	// ---- C13 modes ----
+	out = append(out, &HarnessSpec{Name: "l2_api", Pkg: "trie", Property: "C13", Witness: 1,
+		Quick: []Grid{{"n": {0, 1}, "L": {2}, "lens": {0, 1, 2}, "opt": {0, 1}, "enc": {1, 0}, "check": {13}, "lq": {0, 1, 2, 3}, "cv": {-1}},
+			{"n": {2}, "L": {2}, "lens": rng(0, 8), "opt": {0, 1}, "enc": {1}, "check": {13}, "lq": {1, 3}, "cv": {-1}},
+			{"n": {3}, "L": {1}, "lens": rng(0, 7), "opt": {1}, "enc": {1}, "check": {13}, "lq": {2}, "cv": {-1}}},
+		Thorough: []Grid{{"n": {0, 1}, "L": {2}, "lens": {0, 1, 2}, "opt": {0, 1}, "enc": {1, 0, 2}, "check": {13}, "lq": {0, 1, 2, 3, 4}, "cv": {-1}},
+			{"n": {2}, "L": {2}, "lens": rng(0, 8), "opt": {0, 1}, "enc": {1, 0, 2}, "check": {13}, "lq": {0, 1, 2, 3, 4}, "cv": {-1}},
+			{"n": {3}, "L": {2}, "lens": rng(0, 26), "opt": {0, 1}, "enc": {1}, "check": {13}, "lq": {1, 2, 3}, "cv": {-1}}},
+		Note: "the four information levels built from one symbolic key/value list; found in a mode storing more => found with the same value in every mode storing less; Complete exact"})
+	out = append(out, &HarnessSpec{Name: "l3_api", Pkg: "trie", Property: "C13", Witness: 1,
+		Quick:    []Grid{{"skel": {0, 1, 2}, "opt": {1}, "enc": {1}, "runs": {0, 2}, "check": {13}, "lq": {1, 3}}},
+		Thorough: []Grid{{"skel": {0, 1, 2, 3, 4}, "opt": {0, 1}, "enc": {1}, "runs": {0, 2}, "check": {13}, "lq": {0, 1, 2, 3, 4, 5}}},
+		Note:     "L3: same on skeleton key sets"})
+	// ---- C19 String ----
+	out = append(out, &HarnessSpec{Name: "l2_api", Pkg: "trie", Property: "C19", Witness: 1,
+		Quick: []Grid{{"n": {0, 1}, "L": {2}, "lens": {0, 1, 2}, "opt": optsDistinct, "enc": {1, 0}, "check": {19}, "lq": {0}, "cv": {0, 2}},
+			{"n": {2}, "L": {1}, "lens": rng(0, 3), "opt": optsFew, "enc": {1}, "check": {19}, "lq": {0}, "cv": {0, 2}, "alpha": {1}}},
+		Thorough: []Grid{{"n": {0, 1}, "L": {3}, "lens": {0, 1, 2, 3}, "opt": optsDistinct, "enc": {1, 0, 3}, "check": {19}, "lq": {0}, "cv": {0, 2}},
+			{"n": {2}, "L": {2}, "lens": rng(0, 8), "opt": optsDistinct, "enc": {1, 0, 3}, "check": {19}, "lq": {0}, "cv": {0, 2}, "alpha": {1}}},
+		Note: "String() on every build path: no panic, one line per node, leaf lines carry the retained (concrete) values in key order"})
+	out = append(out, &HarnessSpec{Name: "l3_api", Pkg: "trie", Property: "C19", Witness: 1,
+		Quick:    []Grid{{"skel": {0, 1, 2, 3, 4, 5, 6}, "opt": {16, 9}, "enc": {1}, "runs": {0, 2}, "check": {19}, "lq": {0}}},
+		Thorough: []Grid{{"skel": {0, 1, 2, 3, 4, 5, 6}, "opt": optsDistinct, "enc": {1, 3}, "runs": {0, 1, 2, 3}, "check": {19}, "lq": {0}}},
+		Note:     "String() on skeleton tries incl. short-node tables and a 257-bit root"})
 	return out
 }
